@@ -423,9 +423,9 @@ def run_case(c):
     for nm, k in oi.items():
         if nm in ri and ri[nm] != k:
             res["prop"].append(f"frame: initializer {nm} changed from {k} to {ri[nm]}")
-    # progress
-    if c["any"] and res["count"] == 0:
-        res["prop"].append("progress: an applicable instance exists but no rule was applied")
+    # progress: judged on the result itself (every generated rule has a name, so a replacement node carries the rule tag)
+    if c["any"] and not any(n["rule"] for n in real_nodes):
+        res["prop"].append("progress: an applicable instance exists but nothing was rewritten")
     return res
 
 
@@ -461,24 +461,33 @@ def describe(c):
     return s
 
 
-def tlc_cases(ctx, cfg, timeout):
-    res = core.run_tlc("Rewrite", cfg, timeout=timeout)
-    ctx.tlc(res, cfg)
-    if not res.ok:
-        raise core.MachineryError(f"TLC reports {res.violated} on {cfg} (the DESIGN must satisfy the property):\n{res.out[-2500:]}")
-    return [json.loads(pr[1]) for pr in res.printed if pr and pr[0] == "CASE"]
+VACUITY = (("Rewrite_vacuity_NeverRewrites.cfg", "no rule application is reachable"),
+           ("Rewrite_vacuity_NeverNested.cfg", "no rule application inside an If/Loop body is reachable"),
+           ("Rewrite_vacuity_NeverOverlaps.cfg", "no application that matches a node created by an earlier application is reachable"),
+           ("Rewrite_vacuity_NeverNeedsDeviation.cfg", "no behaviour needs a deviation"),
+           ("Rewrite_canfail.cfg", "the property invariant cannot fail (the implementation model with its deviations passes it)"))
 
 
-def vacuity(ctx):
-    for cfg, what in (("Rewrite_vacuity_NeverRewrites.cfg", "no rule application is reachable"),
-                      ("Rewrite_vacuity_NeverNested.cfg", "no rule application inside an If/Loop body is reachable"),
-                      ("Rewrite_vacuity_NeverOverlaps.cfg", "no application that matches a node created by an earlier application is reachable"),
-                      ("Rewrite_vacuity_NeverNeedsDeviation.cfg", "no behaviour needs a deviation"),
-                      ("Rewrite_canfail.cfg", "the property invariant cannot fail (implementation model with deviations passes it)")):
-        res = core.run_tlc("Rewrite", cfg, timeout=900)
-        ctx.tlc(res, cfg)
-        if res.ok:
-            raise core.MachineryError(f"vacuity: {what} ({cfg} found no counterexample)")
+def tlc_all(ctx, cfgs, timeout):
+    """the case-producing runs and the vacuity witnesses, concurrently"""
+    from concurrent.futures import ThreadPoolExecutor
+
+    with ThreadPoolExecutor(max_workers=len(cfgs) + len(VACUITY)) as ex:
+        main = [ex.submit(core.run_tlc, "Rewrite", cfg, timeout=timeout) for cfg in cfgs]
+        vac = [ex.submit(core.run_tlc, "Rewrite", cfg, timeout=900, workers=2) for cfg, _ in VACUITY]
+        cases = []
+        for cfg, f in zip(cfgs, main):
+            res = f.result()
+            ctx.tlc(res, cfg)
+            if not res.ok:
+                raise core.MachineryError(f"TLC reports {res.violated} on {cfg} (the DESIGN must satisfy the property):\n{res.out[-2500:]}")
+            cases += [json.loads(pr[1]) for pr in res.printed if pr and pr[0] == "CASE"]
+        for (cfg, what), f in zip(VACUITY, vac):
+            res = f.result()
+            ctx.tlc(res, cfg)
+            if res.ok:
+                raise core.MachineryError(f"vacuity: {what} ({cfg} found no counterexample)")
+    return cases
 
 
 def judge(ctx, c, r, stats):
@@ -514,10 +523,11 @@ def judge(ctx, c, r, stats):
 
 def run(ctx: core.Ctx):
     cfgs = ["Rewrite_quick.cfg"] if ctx.quick else ["Rewrite_quick.cfg", "Rewrite_thorough.cfg"]
-    cases = []
-    for cfg in cfgs:
-        cases += tlc_cases(ctx, cfg, 600 if ctx.quick else 3000)
-    vacuity(ctx)
+    import time
+
+    t0 = time.time()
+    cases = tlc_all(ctx, cfgs, 600 if ctx.quick else 3000)
+    t1 = time.time()
     ctx.set("spec_cases", len(cases))
     seen = set()
     uniq = []
@@ -531,6 +541,7 @@ def run(ctx: core.Ctx):
     rng.shuffle(cases)
     chunks = [cases[i:i + 40] for i in range(0, len(cases), 40)]
     results = core.pmap_safe(run_chunk, chunks, timeout=240)
+    t2 = time.time()
     stats = {"mismatch": 0, "explained": 0}
     items = []
     flat = []
@@ -561,6 +572,8 @@ def run(ctx: core.Ctx):
             if not (scoped and outs and imps):
                 k = int(pid[1:].split("/")[0])
                 flat[k][1]["prop"].append(f"Graph!WF fails on the result {pid}: scoped={scoped} outputs={outs} imports={imps}")
+    t3 = time.time()
+    ctx.set("timing_s", {"tlc": round(t1 - t0, 1), "replay": round(t2 - t1, 1), "graphcheck": round(t3 - t2, 1)})
     nontriv = 0
     for c, r in flat:
         if r is core.HANG:
